@@ -36,6 +36,7 @@ FIELDS: dict[str, tuple[str, str | None, bool]] = {
     "_variables": ("refseq", "Variable", False), "_expressions": ("refseq", "Expression", False),
     "size": ("int", None, False), "rows": ("int", None, False), "cols": ("int", None, False),
     "_sort_key": ("key", None, False),
+    "_degree": ("optint", None, True),      # memo slot of Expression.degree (unassigned / None / -1 / degree)
 }
 # owner-class specific overrides of the static class of a ref field
 FIELD_CLS = {
@@ -133,6 +134,12 @@ class Schema:
             return SOpt(isn, SReal(val, "pynum"))
         if tag == "int":
             return SInt(self.F(attr, I)(o.ref))
+        if tag == "optint":
+            has = z3.Select(ip.path.store_of(attr + "!has", B), o.ref)
+            if not ip.path.branch(has, f"{attr} assigned"):
+                ip.raise_exc("AttributeError", attr)
+            isn = z3.Select(ip.path.store_of(attr + "!none", B), o.ref)
+            return SOpt(isn, SInt(z3.Select(ip.path.store_of(attr, I), o.ref)))
         if tag == "realseq":
             n = fn("LEN_" + attr, Ref, I)(o.ref)
             arr = fn("ARR_" + attr, Ref, RealArr)(o.ref)
@@ -171,6 +178,16 @@ class Schema:
             ip.path.stores[attr] = z3.Store(ip.path.store_of(attr, R), o.ref, real_term(v))
         elif tag == "name":
             ip.path.stores[attr] = z3.Store(ip.path.store_of(attr, Name), o.ref, ip.models.name_term(v))
+        elif tag == "optint":
+            ip.path.stores[attr + "!has"] = z3.Store(ip.path.store_of(attr + "!has", B), o.ref, z3.BoolVal(True))
+            if v is None:
+                ip.path.stores[attr + "!none"] = z3.Store(ip.path.store_of(attr + "!none", B), o.ref, z3.BoolVal(True))
+            elif isinstance(v, SOpt):
+                ip.path.stores[attr + "!none"] = z3.Store(ip.path.store_of(attr + "!none", B), o.ref, v.isnone)
+                ip.path.stores[attr] = z3.Store(ip.path.store_of(attr, I), o.ref, num_term(v.val))
+            else:
+                ip.path.stores[attr + "!none"] = z3.Store(ip.path.store_of(attr + "!none", B), o.ref, z3.BoolVal(False))
+                ip.path.stores[attr] = z3.Store(ip.path.store_of(attr, I), o.ref, num_term(v))
         elif tag == "optreal":
             if v is None:
                 ip.path.stores[attr + "!none"] = z3.Store(ip.path.store_of(attr + "!none", B), o.ref, z3.BoolVal(True))
@@ -184,6 +201,8 @@ class Schema:
             raise Unsupported(f"store to field {attr}")
 
     def hasattr(self, ip, o: Opaque, attr: str):
+        if attr in FIELDS and FIELDS[attr][0] == "optint":
+            return ip.path.branch(z3.Select(ip.path.store_of(attr + "!has", B), o.ref), f"hasattr {attr}")
         cls = ip.exact_class(o)
         if cls is None:
             # decide by kind: fork over the classes that do / do not carry the slot
